@@ -14,7 +14,7 @@ LEVEL_NOTE = ("Stress descent, makeFeasible's priority loop and the VPSC solver 
               "solver); C07's end-to-end claim holds only for the sampled runs. Mapping of unsatisfiable reports to "
               "compound constraints is conservative (any reported sub-constraint, or a reported alignment a "
               "constraint refers to, excuses the whole compound constraint). Page boundaries are soft and have "
-              "no hard meaning on the shapes. Three classes of clean-tree violations of the property text are "
+              "no hard meaning on the shapes. Five classes of clean-tree violations of the property text are "
               "reported with their own message prefixes: unreported-violation[makeFeasible-only], "
               "unreported-violation[fd-run,over-constrained], hang, exception[cml], size-rounding.")
 TECHNIQUE = "Lean 4 theorems (gen_sound/gen_complete per type, convex_step, checker iff) + exact correspondence of generated constraints + proven checkers on real layout outputs"
